@@ -127,7 +127,18 @@ def _run_batch(args):
 
 
 def extract(repo=None, config="cxx11", extra_tus=(), jobs=16, verbose=False):
-    """Return a DB for the current tree of `repo`."""
+    """Return a DB for the current tree of `repo` (robust against concurrent runs sharing the cache)."""
+    last = None
+    for attempt in range(3):
+        try:
+            return _extract(repo, config, extra_tus, jobs, verbose)
+        except (FileNotFoundError, EOFError, pickle.UnpicklingError) as e:
+            last = e
+            time.sleep(0.5 + attempt)
+    raise AnalysisBroken("fact cache raced three times: %s" % last)
+
+
+def _extract(repo=None, config="cxx11", extra_tus=(), jobs=16, verbose=False):
     repo = repo or REPO
     ensure_tool()
     os.makedirs(CACHE, exist_ok=True)
@@ -161,7 +172,7 @@ def extract(repo=None, config="cxx11", extra_tus=(), jobs=16, verbose=False):
     work = []
     for i, b in enumerate(batches):
         if b:
-            work.append((b, os.path.join(cdir, "batch%02d.json.tmp%d" % (i, os.getpid())), repo, flags))
+            work.append((b, os.path.join(cdir, "batch%02d.json.tmp%d_%d" % (i, os.getpid(), int(time.time() * 1000) % 100000)), repo, flags))
     with ThreadPoolExecutor(max_workers=jobs) as ex:
         results = list(ex.map(_run_batch, work))
     errs = []
@@ -189,11 +200,13 @@ def extract(repo=None, config="cxx11", extra_tus=(), jobs=16, verbose=False):
     return db
 
 
-def _prune_cache(keep, maxn=6):
+def _prune_cache(keep, maxn=24):
     try:
+        now = time.time()
         ents = [os.path.join(CACHE, e) for e in os.listdir(CACHE)]
+        # never touch what another run may still be writing: only entries idle for 20 minutes are candidates
         ents = [e for e in ents if os.path.isdir(e) and os.path.basename(e) != keep
-                and not os.path.basename(e).startswith("shadow-")]
+                and not os.path.basename(e).startswith("shadow-") and now - os.path.getmtime(e) > 1200]
         ents.sort(key=lambda e: os.path.getmtime(e))
         import shutil
         for e in ents[:-maxn] if len(ents) > maxn else []:
